@@ -57,9 +57,14 @@ func (s *snapper) obj(t *types.Type) *common.UObj {
 			o.TypeParams[k] = s.obj(tp)
 		}
 	}
-	if t.GoType != nil {
+	if t.Kind != types.Unknown && t.Kind != types.DeclarationOf {
+		// asked of every described type, whether or not the loader left a Go type in it: no answer (a panic) is an answer too
 		func() {
-			defer func() { recover() }()
+			defer func() {
+				if recover() != nil {
+					o.ComparablePanics = true
+				}
+			}()
 			c := t.IsComparable()
 			o.Comparable = &c
 		}()
